@@ -306,7 +306,8 @@ func (f *Failover) valueFromError(err error) (interface{}, bool, error) {
 		return nil, false, nil
 	}
 
-	if errors.Is(err, ErrNotFound) {
+	// Expired entry without details (ErrExpired that does not implement ErrWithExpiredItem) has no value to serve.
+	if errors.Is(err, ErrNotFound) || errors.Is(err, ErrExpired) {
 		return nil, false, nil
 	}
 
